@@ -173,12 +173,23 @@ example : (run (State.init 2 1) [.wk 0 0, .wk 1 0]).workers 0 = .waiting ∧
     (run (State.init 2 1) [.wk 0 0, .wk 1 0, .sub 0 .cpu 1]).workers 1 = .woken ∧
     (run (State.init 2 1) [.wk 0 0, .wk 1 0, .sub 0 .cpu 1]).wq = [.item 0] := by decide
 
-/-- `loop_alive_until_done`, stated; not proved here (checked on the implementation by the `active-reqs`
-    monitor after every action and by `uv_loop_alive` in the real-thread run): the loop's request count equals
-    the number of its requests whose callback has not run, so the loop stays alive until the last callback;
-    `uv__queue_done` unregisters before calling the user's callback (threadpool.c:360). -/
-def loop_alive_until_done_statement : Prop :=
-  ∀ n L s, Reach n L s → ∀ l, l < s.nLoops →
-    (s.loops l).reqs = cnt (fun it : Item => decide (it.loop = l) && decide (it.dones = 0)) s.items s.nItems
+/-- `loop_alive_until_done`: a loop's `active_reqs` (registered at submit, unregistered by `uv__queue_done` at
+    threadpool.c:360 inside `uv__work_done`, before the user's callback) equals the number of that loop's requests
+    whose callback has not run yet; hence it is positive — the loop is alive — from submit until the request's own
+    done callback.  (The dump taken inside the callback shows the already decremented count on both sides of the
+    correspondence, which pins the unregister-before-callback order.) -/
+theorem loop_alive_until_done {n L : Nat} {s : State} (hr : Reach n L s) :
+    (∀ l, (s.loops l).reqs = cnt (pend l) s.items s.nItems) ∧
+    (∀ i, i < s.nItems → (s.items i).dones = 0 → 0 < (s.loops (s.items i).loop).reqs) := by
+  have h := inv4_reach hr
+  refine ⟨h, fun i hi hd => ?_⟩
+  rw [h]
+  exact_mod_cast cnt_pos (pend (s.items i).loop) s.items s.nItems i hi (by simp [pend, hd])
+
+-- two requests on loop 0, one cancelled and reported: one registration left, and it is the unreported request's
+example : ((run (State.init 1 1) [.sub 0 .cpu 0, .sub 0 .slow 0, .can 0 1, .go 0, .drn 0, .go 0]).loops 0).reqs = 1 ∧
+    ((run (State.init 1 1) [.sub 0 .cpu 0, .sub 0 .slow 0, .can 0 1, .go 0, .drn 0, .go 0]).items 1).dones = 1 ∧
+    ((run (State.init 1 1) [.sub 0 .cpu 0, .sub 0 .slow 0, .can 0 1, .go 0, .drn 0, .go 0]).items 0).dones = 0 := by
+  decide
 
 end UvModel.Tpool
